@@ -8,6 +8,7 @@ import Pyunicorn.Lemmas.NetBetwAsm
 import Pyunicorn.Lemmas.NetBetwKernel
 import Pyunicorn.Lemmas.NetRW
 import Pyunicorn.Lemmas.NetRWInv
+import Pyunicorn.Lemmas.NetRWReg
 import Pyunicorn.Generated.ArithC03
 /-!
 # C03 — Network measures equal their published definitions
@@ -1650,5 +1651,115 @@ example : ratInv (reducedKirchhoff 3 (subAdj p3k2 [0, 1, 2])) = some [[2, 1], [1
   decide +kernel
 example : newmanComponent p3k2 [0, 1, 2] = some [2, 3, 2] := by decide +kernel
 example : newmanComponent p3k2 [0, 3] = none := by decide +kernel
+
+
+/-! ### Round 5h: the reduced Kirchhoff matrix of a connected component **is** regular
+
+Until round 5e the non-singularity of `(D − A)[:-1, :-1]` on a connected component (classically the
+matrix-tree theorem) was open: the model returns `Option`, `newmanComponent_none_iff` characterises
+the failure.  `Lemmas/NetRWReg.lean` proves it by a maximum principle (adapted from C02's round 5g
+`Nsi.newman_grounded_regular`): a kernel vector, extended by `0` at the grounded node, is harmonic
+on the non-grounded nodes (`kirchhoff_row_harmonic`), its positive maximum is handed to all
+neighbours (`kirchhoff_max_step`) and along a walk to the grounded node (`kirchhoff_max_walk`), so it
+is `≤ 0` (`kirchhoff_ker_nonpos`) and, by the same for `−v`, `= 0`.  "Connected" is stated with the
+`Walk` of `path_lengths` (`dist_some_iff`): every node reaches the grounded node `N − 1`. -/
+
+/-- **`sp_M[:-1, :-1]` of a connected undirected graph is regular**: no non-zero kernel vector
+(any `N`; for `N ≤ 1` the matrix is empty) -/
+theorem reducedKirchhoff_regular (N : Nat) (b : Adj) (hsym : ∀ i j, b i j = b j i)
+    (hconn : ∀ s, s < N → ∃ k, Walk N b s (N - 1) k) :
+    ¬ ∃ v : Nat → Rat, (∃ l, l < N - 1 ∧ v l ≠ 0) ∧
+        ∀ k, k < N - 1 → sumToQ (N - 1) (fun l => matFn (reducedKirchhoff N b) k l * v l) = 0 := by
+  rintro ⟨v, ⟨l, hl, hne⟩, hker⟩
+  exact hne (reducedKirchhoff_kernel_zero N b hsym hconn v hker l hl)
+
+/-- … hence `ratInv` returns its inverse -/
+theorem reducedKirchhoff_ratInv_some (N : Nat) (b : Adj) (hsym : ∀ i j, b i j = b j i)
+    (hconn : ∀ s, s < N → ∃ k, Walk N b s (N - 1) k) :
+    ∃ inv, ratInv (reducedKirchhoff N b) = some inv := by
+  cases h : ratInv (reducedKirchhoff N b) with
+  | some inv => exact ⟨inv, rfl⟩
+  | none =>
+    exact absurd ((ratInv_none_iff _ _ (reducedKirchhoff_shape N b)).mp h)
+      (reducedKirchhoff_regular N b hsym hconn)
+
+/-- the subgraph of an undirected graph is undirected -/
+theorem subAdj_symm (a : Adj) (comp : List Nat) (hsym : ∀ i j, a i j = a j i) :
+    ∀ x y, subAdj a comp x y = subAdj a comp y x := fun x y => hsym _ _
+
+/-- the model of the method never fails on a connected node set of an undirected graph -/
+theorem newmanComponent_ne_none (a : Adj) (comp : List Nat) (hsym : ∀ i j, a i j = a j i)
+    (hconn : ∀ s, s < comp.length →
+      ∃ k, Walk comp.length (subAdj a comp) s (comp.length - 1) k) :
+    newmanComponent a comp ≠ none := fun h =>
+  reducedKirchhoff_regular comp.length (subAdj a comp) (subAdj_symm a comp hsym) hconn
+    ((newmanComponent_none_iff a comp).mp h)
+
+/-- **totality of `Network.newman_betweenness` on one component** (`newmanComponent_eq_def` with
+existence as a conclusion): for every undirected graph and every connected node set `comp` of size
+`N ≥ 2` (every node of the subgraph reaches its last node), the model of the method **returns**
+values; the matrix it used is a two-sided inverse of the reduced Kirchhoff matrix of the
+component, and node `i` of the component receives `Σ_{t<s<N} I_i^{st} / ((N-1)/2)` evaluated with
+these potentials. -/
+theorem newmanComponent_total (a : Adj) (comp : List Nat) (hsym : ∀ i j, a i j = a j i)
+    (hN : 2 ≤ comp.length)
+    (hconn : ∀ s, s < comp.length →
+      ∃ k, Walk comp.length (subAdj a comp) s (comp.length - 1) k) :
+    ∃ vals inv, newmanComponent a comp = some vals ∧
+      ratInv (reducedKirchhoff comp.length (subAdj a comp)) = some inv ∧
+      (∀ i j, i < comp.length - 1 → j < comp.length - 1 →
+        sumToQ (comp.length - 1) (fun l =>
+          matFn (reducedKirchhoff comp.length (subAdj a comp)) i l * matFn inv l j) =
+            (if i = j then 1 else 0) ∧
+        sumToQ (comp.length - 1) (fun l =>
+          matFn inv i l * matFn (reducedKirchhoff comp.length (subAdj a comp)) l j) =
+            (if i = j then 1 else 0)) ∧
+      vals.length = comp.length ∧
+      ∀ i, i < comp.length →
+        vals[i]? = some (newmanDef comp.length (subAdj a comp) (matFn inv) i) := by
+  cases h : newmanComponent a comp with
+  | none => exact absurd h (newmanComponent_ne_none a comp hsym hconn)
+  | some vals =>
+    obtain ⟨inv, h1, h2, h3, h4⟩ := newmanComponent_eq_def a comp vals hN h
+    exact ⟨vals, inv, rfl, h1, h2, h3, h4⟩
+
+/-! non-vacuity (round 5h): `p3k2` is undirected; its path component `[0, 1, 2]` is connected
+(walks to the grounded node 2) and the theorem yields its values; the node set `[0, 3]`, on which
+the model fails (`newmanComponent p3k2 [0, 3] = none` above), is not connected: node 0 of that
+subgraph has no link at all -/
+theorem p3k2_symm : ∀ i j, p3k2 i j = p3k2 j i := by
+  intro i j
+  unfold p3k2
+  apply decide_eq_decide.mpr
+  simp only [List.mem_cons, Prod.mk.injEq, List.not_mem_nil, or_false]
+  omega
+
+theorem p3k2_path_connected :
+    ∀ s, s < [0, 1, 2].length → ∃ k, Walk [0, 1, 2].length (subAdj p3k2 [0, 1, 2]) s
+      ([0, 1, 2].length - 1) k := by
+  intro s hs
+  match s, hs with
+  | 0, _ => exact ⟨2, Walk.snoc (w := 1) (Walk.snoc (w := 0) (v := 1) (Walk.nil 0) (by decide)
+      (by decide)) (by decide) (by decide)⟩
+  | 1, _ => exact ⟨1, Walk.snoc (w := 1) (Walk.nil 1) (by decide) (by decide)⟩
+  | 2, _ => exact ⟨0, Walk.nil 2⟩
+
+example : ∃ vals, newmanComponent p3k2 [0, 1, 2] = some vals :=
+  let ⟨vals, _, h, _⟩ := newmanComponent_total p3k2 [0, 1, 2] p3k2_symm (by decide)
+    p3k2_path_connected
+  ⟨vals, h⟩
+example : ¬ ∃ v : Nat → Rat, (∃ l, l < 3 - 1 ∧ v l ≠ 0) ∧ ∀ k, k < 3 - 1 →
+    sumToQ (3 - 1) (fun l => matFn (reducedKirchhoff 3 (subAdj p3k2 [0, 1, 2])) k l * v l) = 0 :=
+  reducedKirchhoff_regular 3 _ (subAdj_symm p3k2 _ p3k2_symm) p3k2_path_connected
+/-- the hypothesis is needed: on the unconnected node set `[0, 3]` no walk leads from 0 to 1 -/
+example : ¬ ∃ k, Walk 2 (subAdj p3k2 [0, 3]) 0 1 k := by
+  rintro ⟨k, w⟩
+  cases w with
+  | snoc w1 hw haw =>
+    rename_i x k'
+    have : x = 0 ∨ x = 1 := by omega
+    rcases this with e | e <;> subst e <;> revert haw <;> decide
+/-- the harmonic row of the kernel equation, on the path: row 1 of `[[1, -1], [-1, 2]]` -/
+example : matFn (reducedKirchhoff 3 (subAdj p3k2 [0, 1, 2])) 1 1 = 2 := by decide +kernel
 
 end Pyunicorn.Net
